@@ -26,6 +26,20 @@ def handle (req : Sexp) : Sexp :=
     match ops.mapM decodeRegOp with
     | some ops => .list (sym "ok" :: regTrace ops)
     | none => sym "bad-request"
+  | .list [.atom "entry", .list us, e, v, .list endS] =>
+    match us.mapM decodeExplicit, decodeExplicit e, decodeVal v, nats? endS with
+    | some us, some e, some v, some endS =>
+      let st := Conf.merge (Conf.setMany Conf.shipped us) e
+      .list [sym "ok", ofStr "pformat" (Conf.pformatE us e v), ofStr "pprint" (Conf.pprintE us e v endS),
+             ofStr "pretty_repr" (Conf.prettyReprE us v),
+             (let d := Conf.setMany Conf.shipped us
+              let on : Option Nat → Sexp := fun x => match x with | some n => ofNat n | none => sym "none"
+              .list [sym "defaults", ofInt d.indent, ofInt d.width, ofInt d.ribbonWidth, on d.depth, on d.maxSeqLen,
+                     ofNat (if d.sortKeys then 1 else 0)]),
+             (let on : Option Nat → Sexp := fun x => match x with | some n => ofNat n | none => sym "none"
+              .list [sym "effective", ofInt st.indent, ofInt st.width, ofInt st.ribbonWidth, on st.depth, on st.maxSeqLen,
+                     ofNat (if st.sortKeys then 1 else 0)])]
+    | _, _, _, _ => sym "bad-request"
   | .list (.atom "pformat" :: v :: sets) =>
     match decodeVal v, sets.mapM decodeSettings with
     | some v, some sets =>
